@@ -23,7 +23,7 @@ func init() { register("C12", c12) }
 // works on classes; every rendering of a class must behave alike (that is part of the tie).
 var c12Variants = map[string][]string{
 	"W": {"a", "b", "foo", "x1"}, "Q": {"'q'", "\"q r\"", "$x", "a'b'"}, "A": {"x=1", "y="},
-	">": {">", "<", ">>", ">|"},
+	">":  {">", "<", ">>", ">|"},
 	"if": {"if"}, "then": {"then"}, "elif": {"elif"}, "else": {"else"}, "fi": {"fi"},
 	"while": {"while"}, "until": {"until"}, "do": {"do"}, "done": {"done"},
 	"for": {"for"}, "in": {"in"}, "case": {"case"}, "esac": {"esac"},
@@ -112,7 +112,6 @@ func c12Shell(c *Ctx, shell, dir string, id int, src string) string {
 	return "acc"
 }
 
-
 // ---------------------------------------------------------------------------------------------
 // Go transliteration of the Lean model (ShVerif.C12.parse): a statement-level recursive descent on
 // token classes, parametrised by the rule variants in which Go's parser and the real shells differ.
@@ -123,17 +122,18 @@ func c12Shell(c *Ctx, shell, dir string, id int, src string) string {
 type c12Cfg struct {
 	posix bool // LangPOSIX (function-name check, no `for … {`)
 	// rule variants; the value of goCfg is the behaviour of syntax/parser.go
-	elseInCmd   bool // `else` / `in` may be a command name when they are not a stop word
-	rsrvAfterIO bool // after a redirection prefix reserved words are still reserved
-	bangAlone   bool // bash: `!` may be repeated, and may stand alone before `;`, newline or EOF
-	forAssign   bool // an assignment-looking word is accepted as the `for` variable
-	fnBody      int  // function body: 0 any and-or list (Go), 1 one command (dash), 2 compound command (bash)
-	forBrace    bool // `for x; { …; }`
-	patAny      bool // dash quirk (not a grammar variant): case patterns are not checked to be words
+	elseInCmd        bool // `else` / `in` may be a command name when they are not a stop word
+	rsrvAfterIO      bool // after a redirection prefix reserved words are still reserved
+	bangAlone        bool // bash: `!` may be repeated, and may stand alone before `;`, newline or EOF
+	forAssign        bool // an assignment-looking word is accepted as the `for` variable
+	fnBody           int  // function body: 0 any and-or list (Go), 1 one command (dash), 2 compound command (bash)
+	forBrace         bool // `for x; { …; }`
+	closerAfterRedir bool // a closing reserved word is recognised right after a compound command's redirections
+	patAny           bool // dash quirk (not a grammar variant): case patterns are not checked to be words
 }
 
 func c12GoCfg(posix bool) c12Cfg {
-	return c12Cfg{posix: posix, elseInCmd: true, rsrvAfterIO: true, bangAlone: false, forAssign: true, fnBody: 0, forBrace: !posix}
+	return c12Cfg{posix: posix, elseInCmd: true, rsrvAfterIO: true, bangAlone: false, forAssign: true, fnBody: 0, forBrace: !posix, closerAfterRedir: true}
 }
 
 // c12ShCfg is the grammar of the real shell of the language (bash for Bash, dash for POSIX).
@@ -165,8 +165,8 @@ func (p *c12P) tok() string {
 	}
 	return p.ts[p.i]
 }
-func (p *c12P) fail()  { p.err = true }
-func (p *c12P) next()  { p.i++ }
+func (p *c12P) fail() { p.err = true }
+func (p *c12P) next() { p.i++ }
 func (p *c12P) got(t string) bool {
 	if p.tok() == t {
 		p.next()
@@ -186,7 +186,7 @@ func (p *c12P) gotNL() bool {
 var c12Rsrv = map[string]bool{"if": true, "then": true, "elif": true, "else": true, "fi": true, "while": true,
 	"until": true, "do": true, "done": true, "for": true, "in": true, "case": true, "esac": true, "{": true, "}": true, "!": true}
 
-func c12LitWord(t string) bool { return t == "W" || t == "A" || c12Rsrv[t] }
+func c12LitWord(t string) bool   { return t == "W" || t == "A" || c12Rsrv[t] }
 func c12WordStart(t string) bool { return c12LitWord(t) || t == "Q" }
 func c12Stop(t string) bool {
 	switch t {
@@ -487,8 +487,16 @@ func (p *c12P) pipe(q c12Quote, neg, binCmd bool) bool {
 	if pre && cmd && !call {
 		p.fail()
 	}
+	post := false
 	for p.tok() == ">" {
 		p.redirect()
+		post = true
+	}
+	if post && !p.cfg.closerAfterRedir && !p.err {
+		// the real shells are not at command position after the redirections of a compound command
+		if t := p.tok(); !(t == "" || c12Stop(t)) {
+			p.fail()
+		}
 	}
 	for p.tok() == "|" {
 		if binCmd {
@@ -609,7 +617,6 @@ func c12Explore(c *Ctx) {
 	fmt.Printf("explored %d lists, %d disagreements\n", len(lists), len(lines))
 }
 
-
 // ---------------------------------------------------------------------------------------------
 // Structured generator: token lists derived from the shared core grammar.
 
@@ -692,6 +699,11 @@ func (g c12Gen) compoundList(d int) []string {
 	for g.r.Chance(30) {
 		out = append(out, g.sep()...)
 		out = append(out, g.andOr(d)...)
+	}
+	if g.r.Chance(15) {
+		// no separator before the closing word: fine after a compound command without
+		// redirections, an error (or an argument) otherwise
+		return out
 	}
 	return append(out, g.sep()...)
 }
@@ -997,7 +1009,7 @@ func c12CfgBits(cfg c12Cfg) string {
 		}
 		return '0'
 	}
-	return string([]byte{b(cfg.posix), b(cfg.elseInCmd), b(cfg.rsrvAfterIO), b(cfg.bangAlone), b(cfg.forAssign), byte('0' + cfg.fnBody), b(cfg.forBrace)})
+	return string([]byte{b(cfg.posix), b(cfg.elseInCmd), b(cfg.rsrvAfterIO), b(cfg.bangAlone), b(cfg.forAssign), byte('0' + cfg.fnBody), b(cfg.forBrace), b(cfg.closerAfterRedir)})
 }
 
 type c12Case struct {
@@ -1017,10 +1029,12 @@ func c12LangName(posix bool) string {
 }
 
 // c12 — streams:
-//   acc <b|p> toks      real syntax.Parser (LangBash / LangPOSIX) on a rendering  vs  Lean `accepts`
-//   cfg <bits> toks     the harness's transliteration vs Lean `parse c` for random rule variants
-//   specsh <b|p> toks   `bash -n` / `dash -n` on the same rendering vs Lean `shellAccepts`
-//                       (validation of the grammar: here the "implementation" side is the shell)
+//
+//	acc <b|p> toks      real syntax.Parser (LangBash / LangPOSIX) on a rendering  vs  Lean `accepts`
+//	cfg <bits> toks     the harness's transliteration vs Lean `parse c` for random rule variants
+//	specsh <b|p> toks   `bash -n` / `dash -n` on the same rendering vs Lean `shellAccepts`
+//	                    (validation of the grammar: here the "implementation" side is the shell)
+//
 // Search leg (independent of Lean): Go parser vs the real shell on the same rendering; a
 // disagreement is a failure unless it is reproduced exactly by the known rule variants
 // (transliteration with goCfg = Go answer and with shCfg = shell answer); the canonical witnesses
@@ -1176,7 +1190,7 @@ func c12(c *Ctx) {
 		c.Op("acc "+ln+" "+toks, gres)
 		// the transliteration against the Lean parser, for a random rule-variant vector
 		cfg := c12Cfg{posix: c.R.Bool(), elseInCmd: c.R.Bool(), rsrvAfterIO: c.R.Bool(), bangAlone: c.R.Bool(),
-			forAssign: c.R.Bool(), fnBody: c.R.Intn(3), forBrace: c.R.Bool()}
+			forAssign: c.R.Bool(), fnBody: c.R.Intn(3), forBrace: c.R.Bool(), closerAfterRedir: c.R.Bool()}
 		c.Op("cfg "+c12CfgBits(cfg)+" "+toks, c12Model(cfg, cs.ts))
 		mGo, mSh := c12Model(c12GoCfg(cs.posix), cs.ts), c12Model(c12ShCfg(cs.posix), cs.ts)
 		tags := []string{"kind=" + cs.kind, "lang=" + ln, fmt.Sprintf("len=%d", (len(cs.ts)+4)/5*5), "go=" + gres}
@@ -1184,6 +1198,14 @@ func c12(c *Ctx) {
 			tags = append(tags, "in-known-variant-region")
 		}
 		sres, ran := shellRes[i]
+		if ran && (sres == "acc" || sres == "rej") && sres != mSh && !c12OracleQuirk(cs.posix, cs.ts) {
+			// a disagreement with the grammar is re-run alone before it is believed (loaded machines
+			// kill or starve child processes now and then)
+			rdir := scratchDir(c)
+			sres = c12Shell(c, map[bool]string{false: "bash", true: "dash"}[cs.posix], rdir, 0, cs.src)
+			os.RemoveAll(rdir)
+			c.Hist["shell-rerun"]++
+		}
 		if ran {
 			switch {
 			case sres == "timeout" || sres == "io-error":
